@@ -44,7 +44,10 @@ NamedHostFams == {"valve", "valvegold", "theship", "unreal2"}
 Good == {g \in [kind : {"good"}, fam : Families, mode : Modes, fmt : Formats, str : StrClasses, size : Sizes, host : {"literal", "name"}] :
            /\ (g.size = "large" => g.fam = "quake3")
            /\ (g.host = "name" => (g.fam \in NamedHostFams /\ g.str = "plain" /\ g.size = "small"))}
+\* a reachable server whose reply the library rejects (cut short, bytes appended, another reply kind): the query stage fails
+MalformedHows == {"truncated", "appended", "garbage"}
 Bad == [kind : {"bad"}, err : Errors, fmt : {"json", "xml"}]
+       \cup [kind : {"bad"}, err : {"malformed_reply"}, fmt : {"json"}, fam : Families, how : MalformedHows]
        \cup [kind : {"bad"}, err : {"unrepresentable_timeout"}, fmt : {"json"}, flag : TimeoutFlags, text : UnrepresentableTexts]
 
 Init == c \in Good \cup Bad /\ stage = "args" /\ exit = 0
@@ -53,7 +56,7 @@ Init == c \in Good \cup Bad /\ stage = "args" /\ exit = 0
 FailsAt(x) == CASE x.err \in {"bad_port", "bad_format", "bad_retries", "missing_ip", "unrepresentable_timeout"} \cup TimeoutErrors -> "args"
                 [] x.err = "unknown_game" -> "find"
                 [] x.err = "unresolvable_host" -> "resolve"
-                [] x.err = "unreachable_server" -> "query"
+                [] x.err \in {"unreachable_server", "malformed_reply"} -> "query"
 Order == <<"args", "find", "resolve", "query", "print", "done">>
 NextStage(s) == CASE s = "args" -> "find" [] s = "find" -> "resolve" [] s = "resolve" -> "query" [] s = "query" -> "print" [] s = "print" -> "done"
 
